@@ -1036,6 +1036,10 @@ func (ex *Exec) evalGhost(g *GhostDecl, args []*SExpr, env *SpecEnv) (Val, types
 		}
 		return unflat(rt, ts), rt
 	}
+	if len(flatArgs) == 0 {
+		// a global ghost variable: kept at the null reference
+		flatArgs = []*Term{Null}
+	}
 	if len(flatArgs) != 1 || flatArgs[0].sort != SRef {
 		specFail("mutable ghost %s must take one reference argument", g.Name)
 	}
